@@ -277,6 +277,41 @@ theorem max_extremal (hρ : 0 < L.radFactor) (q : MathQuirks) (d : Dim) (x : Q R
 example : sameDim .length [(⟨1, .inch⟩ : Q Rat), ⟨96, .px⟩, ⟨2, .cm⟩] := by
   intro x hx; simp at hx; rcases hx with rfl | rfl | rfl <;> exact ⟨by decide, rfl⟩
 
+
+/-- FULL (exact carrier, both models): for `$min`, `$number`, `$max` with units of one
+dimension, `clamp` returns the argument whose base-unit value is
+`max (min number max) min` — i.e. `$number` limited to `[$min, $max]` after unit conversion. -/
+theorem clamp_value (hρ : 0 < L.radFactor) (q : MathQuirks) (d : Dim) (mn num mx : Q Rat)
+    (h : sameDim d [mn, num, mx]) :
+    ∃ r, @clamp Rat (ratOps L) q mn num mx = Res.num r.v r.u ∧ (r = mn ∨ r = num ∨ r = mx) ∧
+      canon L r = max (min (canon L num) (canon L mx)) (canon L mn) := by
+  have hmn := h mn (by simp)
+  have hnum := h num (by simp)
+  have hmx := h mx (by simp)
+  have c1 : compatible num.u mn.u = true := by simp [compatible, hnum.2, hmn.2]
+  have c2 : compatible mx.u mn.u = true := by simp [compatible, hmx.2, hmn.2]
+  unfold clamp
+  simp only [hnum.1, hmn.1, hmx.1, c1, c2, decide_false, bne_self_eq_false, Bool.not_true, Bool.or_self,
+    Bool.false_eq_true, if_false]
+  rw [qge_canon L hρ q num mx hnum.1 hmx.1 (hnum.2.trans hmx.2.symm)]
+  by_cases h1 : canon L mx ≤ canon L num
+  · simp only [h1, decide_true, if_true]
+    rw [qle_canon L hρ q mx mn hmx.1 hmn.1 (hmx.2.trans hmn.2.symm)]
+    by_cases h2 : canon L mx ≤ canon L mn
+    · exact ⟨mn, by simp [h2], Or.inl rfl, by rw [min_eq_right h1, max_eq_right h2]⟩
+    · exact ⟨mx, by simp [h2], Or.inr (Or.inr rfl), by
+        rw [min_eq_right h1, max_eq_left (le_of_lt (not_le.mp h2))]⟩
+  · simp only [h1, decide_false, Bool.false_eq_true, if_false]
+    rw [qle_canon L hρ q num mn hnum.1 hmn.1 (hnum.2.trans hmn.2.symm)]
+    have h1' := le_of_lt (not_le.mp h1)
+    by_cases h2 : canon L num ≤ canon L mn
+    · exact ⟨mn, by simp [h2], Or.inl rfl, by rw [min_eq_left h1', max_eq_right h2]⟩
+    · exact ⟨num, by simp [h2], Or.inr (Or.inl rfl), by
+        rw [min_eq_left h1', max_eq_left (le_of_lt (not_le.mp h2))]⟩
+
+example : sameDim .length [(⟨1, .px⟩ : Q Rat), ⟨5, .inch⟩, ⟨3, .cm⟩] := by
+  intro x hx; simp at hx; rcases hx with rfl | rfl | rfl <;> exact ⟨by decide, rfl⟩
+
 /-- the exact conversion table: 1in = 96px = 2.54cm = 25.4mm = 72pt = 6pc = 101.6Q,
 1turn = 360deg = 400grad, 1s = 1000ms, 1kHz = 1000Hz, 1dppx = 96dpi, 1in⁻¹… -/
 theorem factor_table (ρ : Rat) :
